@@ -40,8 +40,10 @@ class Terms:
         n = self.names.get(l)
         return ("var", n if n else "_%d" % l)
 
+    MAX_DEPTH = 24      # definitions followed before a local is left as a variable (DrawTerms raises it: the symbolic rules need whole expressions)
+
     def of_local(self, l, proj=(), depth=0):
-        if depth > 24:
+        if depth > self.MAX_DEPTH:
             return self.var(l)
         proj = [p for p in proj if p["k"] != "deref"]
         if l != 0 and l <= self.inst["arg_count"] and not self.body.defs.get(l):
